@@ -48,6 +48,22 @@ class ScanEval(SymEval):
                 if k not in ('pos', tn, 'pos_fix') and v is not None:
                     self.ev(v, st)
             return TokVal(cls, pos, txt, e, fix is not None and T.is_const(fix, True))
+        if isinstance(e.func, ast.Name) and e.func.id == 'next' and e.args \
+                and isinstance(e.args[0], ast.GeneratorExp):
+            g = e.args[0].generators[0]
+            if isinstance(g.iter, ast.Attribute) and 'special' in g.iter.attr \
+                    and isinstance(e.args[0].elt, ast.Name) and isinstance(g.target, ast.Name) \
+                    and e.args[0].elt.id == g.target.id:
+                off = None
+                for c in g.ifs:
+                    if isinstance(c, ast.Call) and isinstance(c.func, ast.Attribute) \
+                            and c.func.attr == 'startswith' and len(c.args) == 2 \
+                            and isinstance(c.args[0], ast.Name) and c.args[0].id == g.target.id:
+                        off = self.as_int(self.ev(c.args[1], st), st)
+                if off is not None:
+                    n = Aff.atom(('len', fresh('special')))
+                    st.facts = st.facts.add(n - 1)
+                    return Seq(n, 'str', ('specialat', off))
         r = self.model.resolve_call(e)
         if r and r[0] == 'func' and (r[1].cls is self.func.cls or r[1].outer is not None) \
                 and r[1].mod.short == 'scanner' and r[1].name != 'scan':
@@ -97,6 +113,24 @@ class ScanEval(SymEval):
         return None
 
 
+def _imprecise(a):
+    """does the term contain atoms that stand for lost precision (havocked loop variables
+    without invariant, joins, results of calls the evaluator does not model) rather than for
+    program values with known bounds (S, len(latex), find / next results, literals)?"""
+    for atom in a.t:
+        kind = atom[0] if isinstance(atom, tuple) and atom else atom
+        if kind in ('hv', 'phi', 'join', 'call', 'expr', 'item', 'unpack', 'aug', 'ifexp'):
+            return True
+        if kind == 'int' and atom != ('int', 'S'):
+            return True
+        if kind == 'len' and len(atom) == 2 and isinstance(atom[1], tuple) \
+                and atom[1] and atom[1][0] in ('call', 'hv', 'join', 'expr'):
+            return True
+        if kind == 'len' and len(atom) == 2 and isinstance(atom[1], str) and atom[1] != 'latex':
+            return True
+    return False
+
+
 def pd6(model):
     r = RuleResult('PD6', 'scanner: every token is anchored (its position is the lower bound of '
                    'the source slice its text is taken from), its text ends at or before the new '
@@ -134,6 +168,8 @@ def pd6(model):
         # (C) progress
         if f.prove_ge0(cur - S - 1):
             r.ok(where, 'progress: new scan position %r > start' % cur, nontrivial=True, sample=False)
+        elif _imprecise(cur):
+            r.undec(where, 'scan position %r contains values the analysis could not bound' % cur)
         else:
             r.fail(where, 'on this path the scan position %r is not provably beyond the start of '
                    'the token: the scan loop may not terminate or may move backwards' % cur,
@@ -153,6 +189,8 @@ def pd6(model):
             lo, hi = desc[1], desc[2]
         elif desc and desc[0] == 'index' and desc[2] in ('latex', 'self.latex'):
             lo, hi = desc[1], desc[1] + 1
+        elif desc and desc[0] == 'specialat':
+            lo, hi = desc[1], desc[1] + ev.length(txt, rst)
         elif desc and desc[0] == 'special':
             # text is the loop variable t with the guard latex.startswith(t, start)
             off = None
@@ -168,17 +206,23 @@ def pd6(model):
             continue
         if v.pos is not None and f.prove_eq(v.pos, lo):
             r.ok(v.call, 'anchored: position %r is the start of its text' % lo, nontrivial=True)
+        elif v.pos is None or _imprecise(v.pos) or _imprecise(lo):
+            r.undec(v.call, 'position / text start contain values the analysis could not bound')
         else:
             r.fail(v.call, 'token position %r is not the start %r of the source slice its text is '
                    'taken from: every character of it maps to a wrong offset' % (v.pos, lo),
                    witness='any document containing this construct')
         if f.prove_ge0(cur - hi):
             r.ok(v.call, 'text ends at %r <= new scan position' % hi, nontrivial=True, sample=False)
+        elif _imprecise(cur) or _imprecise(hi):
+            r.undec(v.call, 'end of text / scan position not bounded by the analysis')
         else:
             r.fail(v.call, 'the text of the token may extend beyond the new scan position: '
                    'characters would be scanned twice')
         if f.prove_ge0(lo - S):
             r.ok(v.call, 'text starts at or after the start of the token', sample=False)
+        elif _imprecise(lo):
+            r.undec(v.call, 'start of text not bounded by the analysis')
         else:
             r.fail(v.call, 'the text of the token may start before the current scan position')
     return r
